@@ -85,6 +85,10 @@ def jobs(tier):
                 out.append(dict(name='%s-%s-any' % (flavor, KINDS[a]),
                                 flavor=flavor, ops=[a, None], budget_s=1200,
                                 crosscheck=10))
+    # compartments that hold steps only (a clock process keeps time going)
+    for k in (1, 4, 5, 2):
+        out.append(dict(name='flowonly-%s' % KINDS[k], flavor='flowonly',
+                        ops=[k], budget_s=100 if q else 900))
     for issuer in ('deriver', 'flowstep'):
         for k in range(len(KINDS)):
             if KINDS[k] in ('generate_into', 'regen_same_instant'):
@@ -319,7 +323,8 @@ def invocation_claims(ctx, e, ts_a, ts_g, ends, info):
             if l[1][0] in ('delete',):
                 ctx.goal('process deleted')
     actor_id = id(CTX['actor'])
-    initial_ids = {id(CTX['first_agent']['processes']['grow'])}
+    initial_ids = {id(p) for k, p in
+                   CTX['first_agent']['processes'].items() if k == 'grow'}
     sched = []
 
     def end_of(t):
